@@ -230,20 +230,30 @@ type run struct {
 	flags byte // flag applied to the chunks selected by the pattern
 	all   bool // apply to every chunk (else a seeded pattern)
 	chain bool // async APIs: the next read is started from inside the completion callback (the usual read loop)
+	lc    bool // the application sends its own Close first and then keeps reading (state closed-by-us)
+}
+
+func (r run) name() string {
+	if r.lc {
+		return r.api + "+lc"
+	}
+	return r.api
 }
 
 func (d *driver) runs() []run {
 	if d.mode == "lite" {
-		return []run{{"NF", 2, false, false}, {"ANF", 1, false, false}, {"NM", 0, true, false}, {"ANM", 1, true, false},
-			{"ANM", 1, false, true}}
+		return []run{{"NF", 2, false, false, false}, {"ANF", 1, false, false, false}, {"NM", 0, true, false, false},
+			{"ANM", 1, true, false, false}, {"ANM", 1, false, true, false}, {"NM", 0, true, false, true}}
 	}
 	return []run{
-		{"NF", 0, true, false}, {"NF", 2, true, false},
-		{"ANF", 0, true, false}, {"ANF", 1, true, false}, {"ANF", 1, false, false},
-		{"NM", 0, true, false},
-		{"ANM", 0, true, false}, {"ANM", 1, true, false}, {"ANM", 1, false, false},
-		{"ANF", 0, true, true}, {"ANF", 1, false, true},
-		{"ANM", 0, true, true}, {"ANM", 1, false, true},
+		{"NF", 0, true, false, false}, {"NF", 2, true, false, false},
+		{"ANF", 0, true, false, false}, {"ANF", 1, true, false, false}, {"ANF", 1, false, false, false},
+		{"NM", 0, true, false, false},
+		{"ANM", 0, true, false, false}, {"ANM", 1, true, false, false}, {"ANM", 1, false, false, false},
+		{"ANF", 0, true, true, false}, {"ANF", 1, false, true, false},
+		{"ANM", 0, true, true, false}, {"ANM", 1, false, true, false},
+		{"NF", 0, true, false, true}, {"ANF", 1, false, true, true},
+		{"NM", 0, true, false, true}, {"ANM", 1, false, true, true},
 	}
 }
 
@@ -319,7 +329,7 @@ func (d *driver) one(sc *scenario, r run, ri int) (obs []Ev) {
 	rec := func(e Ev) {
 		obs = append(obs, d.emit(e))
 	}
-	d.emit(Ev{Ev: "Run", Api: r.api})
+	d.emit(Ev{Ev: "Run", Api: r.name()})
 	s.SetControlCallback(func(mt websocket.MessageType, p []byte) {
 		toks, ok := project(sc.frames, p)
 		e := Ev{Ev: "Ctl", Op: typeName(mt), Len: len(p), Ok: ok}
@@ -349,6 +359,14 @@ func (d *driver) one(sc *scenario, r run, ri int) (obs []Ev) {
 				}
 			}
 			return true
+		}
+		if r.lc {
+			// the application closes first and goes on reading until the peer has answered
+			if async {
+				s.AsyncClose(websocket.CloseNormal, "", func(error) {})
+			} else {
+				_ = s.Close(websocket.CloseNormal, "")
+			}
 		}
 		if r.chain {
 			// read loop: every completion callback records what it got and starts the next read itself
@@ -471,7 +489,7 @@ func (d *driver) one(sc *scenario, r run, ri int) (obs []Ev) {
 		}
 	}()
 	d.byErr[lastErr]++
-	d.emit(Ev{Ev: "EndRun", Api: r.api})
+	d.emit(Ev{Ev: "EndRun", Api: r.name()})
 	return obs
 }
 
